@@ -91,13 +91,24 @@ theorem xrd_fin_after_crd_offered (sm : Sem St Req Resp) (plan : Plan) (s : St) 
 
 /-- A deleted package revision removes its finalizer only in a reconcile that saw that it
 is not in the Lock: the Lock was NotFound, or was read without it, or the update that
-removes it was acknowledged. -/
+removes it was acknowledged. This holds whatever revision object the reconcile read — in
+particular for every value of `spec.desiredState` (`inactive`) and
+`spec.skipDependencyResolution` (`skipDeps`): the licence comes from the Lock, never from
+the revision's own spec. -/
 theorem rev_lock_before_fin (sm : Sem St Req Resp) (plan : Plan) (s : St) (n : String)
     (h : Hist) (k : Key) (rv : Nat)
     (hi : (h, Req.removeFin k rv c08RevisionFinalizer) ∈ issued sm plan 0 [] (revRec n) s) :
     (Req.get lockKey, Resp.notFound) ∈ h ∨ (∃ l, (Req.get lockKey, Resp.obj l) ∈ h ∧ n ∉ l.pkgs) ∨
       ∃ rv' l, (Req.lockRemove rv' n, Resp.obj l) ∈ h :=
   (always_issued sm plan _ 0 [] _ s (always_revRec n) _ hi rfl).2
+
+/-- The deletion branch of the revision reconciler does not depend on the revision's
+`desiredState` / `skipDependencyResolution`: after reading the revision it continues in
+exactly the same way whatever those two fields are. -/
+theorem rev_deletion_ignores_spec (n : String) (pr : Obj) (a b : Bool) :
+    ∃ f, revRec n = .call (.get ⟨.rev, n⟩) f ∧
+      f (.obj { pr with inactive := a, skipDeps := b }) = f (.obj pr) :=
+  ⟨_, rfl, rfl⟩
 
 /-- A Usage that is part of a composition (carries the composite label and names a using
 resource) removes its finalizer only in a reconcile that read the using resource as
@@ -275,6 +286,10 @@ example : (let s := reach xrdWorld [.spawn .defined "xs.example.org", .step 0 .o
       .spawn .defined "xs.example.org", .step 2 .ok, .step 2 .ok, .step 2 .ok, .step 2 .ok, .step 2 .ok, .step 2 .ok, .step 2 .ok,
       .spawn .defined "xs.example.org", .step 3 .ok, .step 3 .ok, .step 3 .ok, .step 3 .ok, .step 3 .ok]
     (s.st.objs.length, s.st.running)) = (0, []) := by decide
+
+/-- an Inactive, skipDependencyResolution revision that is still in the Lock leaves it before it is finalized -/
+example : (let s := reach staleRevWorld [.spawn .rev "p1", .step 0 .ok, .step 0 .ok, .step 0 .ok, .step 0 .ok, .step 0 .ok]
+    ((find s.st ⟨.rev, "p1"⟩).isNone, (find s.st lockKey).map (·.pkgs))) = (true, some ["p2"]) := by decide
 
 example : (let s := reach revWorld [.spawn .rev "p1", .step 0 .ok, .step 0 .ok, .step 0 .ok, .step 0 .ok, .step 0 .ok]
     ((find s.st ⟨.rev, "p1"⟩).isNone, (find s.st lockKey).map (·.pkgs))) = (true, some ["p2"]) := by decide
